@@ -18,5 +18,37 @@ func init() {
 			Tags: func(t LogCase, impl Sexp) []string { return logTags("c01", t, impl) },
 		}
 		RunSpec(c, spec, c.Scale(5000, 200000))
+		if c.ReplayIn != "" {
+			return
+		}
+		// offload-barrier probes: for every stage kind, `{} | <stage> <line filter>` against a backend that
+		// offloads every line operator, over records on which the stage rewrites the line or carries state;
+		// this is where a wrong classification in extractQueryConditions (cf. Gen/Offload.lean) shows
+		var probes []LogCase
+		recs := []LRec{
+			{TS: 1, Body: `{"_entry":"alpha x","a":"1"}`, Attrs: [][2]string{{"a", "k"}}},
+			{TS: 2, Body: `{"_entry":"beta","a":"2","pad":"x"}`, Attrs: [][2]string{{"a", "k"}}},
+			{TS: 3, Body: "\x1b[31mx\x1b[0m gamma", Attrs: [][2]string{{"a", "k"}}},
+			{TS: 4, Body: "a=1 x", Attrs: [][2]string{{"a", "k"}}},
+			{TS: 5, Body: "delta", Attrs: [][2]string{{"a", "k2"}}},
+			{TS: 6, Body: "x [", Attrs: [][2]string{{"a", "k2"}}},
+		}
+		for i := 0; i < c.Scale(40, 400); i++ {
+			for _, kind := range []string{"lf", "lfip", "json", "logfmt", "regexp", "pattern", "unpack", "linefmt", "decolorize", "lblf", "lblfmt", "drop", "keep", "distinct"} {
+				st := genStage(c.Rng, kind)
+				if kind == "distinct" {
+					st.Labels = []string{"a"}
+				}
+				lf := LStage{Kind: "lf", Op: pick(c.Rng, lgStrOp), Value: pick(c.Rng, []string{"x", "alpha", "[", "a=", "31m", "beta"})}
+				if lf.Op == "re" || lf.Op == "nre" {
+					lf.Re, lf.Value = reLit(lf.Value), ""
+				}
+				t := LogCase{CapsLine: lgStrOp, CapsLabel: lgStrOp, Stages: []LStage{st, lf}, Recs: recs, Limit: -1}
+				fixAmbiguity(t.Stages)
+				probes = append(probes, t)
+			}
+		}
+		c.CountN("c01:offload-barrier-probes", len(probes))
+		RunCases(c, spec, probes)
 	}
 }
